@@ -295,6 +295,9 @@ def owners(div):
         return own
     if div.get("conc") or (isinstance(div.get("call"), dict) and div["call"].get("e") == "conc"):
         own = {"C20"} | ({"C12"} if "tmasks" in (div.get("keys") or []) else set()) | ({"C03"} if "penv" in (div.get("keys") or []) else set())
+        if "mon" in (div.get("keys") or []):
+            for m_ in (div.get("obs") or {}).get("mon") or []:
+                own |= MON_OWNER.get(m_[0], set())
         if "kids" in (div.get("keys") or []):
             # which field of which child differs: wiring / extra descriptors / stdin writers are C11's, the environment C03's
             ek = (div.get("exp") or {}).get("kids") or []
@@ -847,7 +850,7 @@ def fam_wincmd(tier, outdir):
 
 def fam_conc(tier, outdir):
     """C20: interleavings of two threads' starts at system-call granularity (ConcStart.tla), replayed with coroutines."""
-    scens = [1, 2, 4] if tier == "quick" else [1, 2, 3, 4]
+    scens = [1, 2, 4, 5] if tier == "quick" else [1, 2, 3, 4, 5]
     agg = None
     for sc in scens:
         sdir = os.path.join(outdir, "s%d" % sc)
@@ -1346,7 +1349,7 @@ FAMILIES = {"strtwice": fam_strtwice, "drainbig": fam_drainbig, "nest": fam_nest
 
 PROPS = {
     "C01": {"families": ["status", "realstatus", "stop", "two", "free"], "title": "exit status exact, stable, reaped once"},
-    "C06": {"families": ["stop", "faults", "two"], "title": "only the own unreaped child is signalled or waited for"},
+    "C06": {"families": ["stop", "faults", "restart", "two"], "title": "only the own unreaped child is signalled or waited for"},
     "C07": {"families": ["stop", "free"], "title": "stop sequences"},
     "C03": {"families": ["env", "env2", "faults", "conc", "real"], "title": "launch fidelity: argv, environment, working directory, program resolution"},
     "C12": {"families": ["env", "env2", "faults", "conc", "threads", "real"], "title": "start leaves the caller untouched and gives the child a clean signal state"},
